@@ -69,7 +69,7 @@ type extraction struct {
 
 func (c10) Run(seed int64, tier string, idx int) Outcome {
 	r := caseRng(seed, "C10", idx)
-	g := gen.Rich(r, gen.RichCfg{Names: idx%2 == 0, IntTags: true, LongRhs: idx%5 == 0})
+	g := gen.Rich(r, gen.RichCfg{Names: idx%2 == 0, IntTags: true, LongRhs: idx%5 == 0, EOFAlias: true})
 	actions := make([]string, len(g.Rules))
 	for k := range actions {
 		if r.Intn(6) == 0 {
@@ -197,7 +197,16 @@ func extractAndCompare(g *spec.Grammar, parts render.Parts, actions []string, b 
 	if msg := checkPrecAssignment(g, b); msg != "" {
 		return nil, msg
 	}
+	aliases := 0
 	for i, t := range g.Tokens {
+		if t.IsEOFAlias() {
+			aliases++
+			id := b.Root.GetIdsymtabl()[t.Name]
+			if id == nil || id.Value != -1 {
+				return nil, "end-marker alias " + t.Name + " lost its number -1"
+			}
+			continue
+		}
 		sy := G.SymbolsMap[t.YName()]
 		if sy == nil {
 			return nil, "token " + t.Src() + " missing"
@@ -225,7 +234,7 @@ func extractAndCompare(g *spec.Grammar, parts render.Parts, actions []string, b 
 			return nil, fmt.Sprintf("nonterminal %s declared with tag %q has tag %q", nt.Name, nt.Tag, sy.Tag)
 		}
 	}
-	if len(G.Symbols) != len(g.Tokens)+len(g.NTs)+2 {
+	if len(G.Symbols) != len(g.Tokens)-aliases+len(g.NTs)+2 {
 		return nil, fmt.Sprintf("symbol table has %d entries, specification has %d tokens and %d nonterminals", len(G.Symbols), len(g.Tokens), len(g.NTs))
 	}
 	for _, sy := range G.Symbols {
